@@ -194,6 +194,7 @@ class proceed:
             outer = HandlerCollection(pairs)
             # What this call carries from now on (a generator may be resumed)
             self.inner = now
+        self.gave = outer
         HandlerCollection.current.set(outer)
 
     def resume(self):
@@ -201,7 +202,31 @@ class proceed:
         if self.suspended:
             self.suspended = False
             self.outer = HandlerCollection.current.get()
+            if self.outer is not self.gave:
+                self._rebase()
             HandlerCollection.current.set(self.inner)
+
+    def _rebase(self):
+        """Whoever resumes the generator is not who it last yielded to.
+
+        Probes and overlays may have come and gone since: what the call
+        carries must not bring back the handlers of those that are over, nor
+        hide the ones that are active now from the calls it goes on to make.
+        """
+        outer_pairs = self.outer.handler_pairs if self.outer else []
+        active = {id(acc.origin) for _, acc in outer_pairs}
+        pairs = [
+            (sel, acc)
+            for sel, acc in self.inner.handler_pairs
+            if id(acc.origin) in active
+        ]
+        have = {(id(sel), id(acc)) for sel, acc in pairs}
+        pairs += [
+            (sel, acc)
+            for sel, acc in outer_pairs
+            if not sel.immediate and (id(sel), id(acc)) not in have
+        ]
+        self.inner = HandlerCollection(pairs)
 
     def __exit__(self, typ, exc, tb):
         if not self.suspended:
